@@ -439,7 +439,7 @@ def scenario_index(events, marker="Scenario"):
 
 
 def validate_traces(ctx, module, trace_path, invariants, prop_prefix, constants=None, overrides=None, properties=(),
-                    max_reports=40, timeout=3600, spec="TraceSpec", heap="8g", workers=None, line_var="l"):
+                    max_reports=40, timeout=3600, spec="TraceSpec", heap="8g", workers=None, line_var="l", sig_detail=None):
     """Check a (concatenated) ndjson trace recorded from the real code against spec/<module>.tla.
 
     The trace module has one initial state per `Scenario` line (so counterexamples are short and
@@ -500,7 +500,8 @@ def validate_traces(ctx, module, trace_path, invariants, prop_prefix, constants=
         name = r.violated
         if name and name.startswith(prop_prefix):
             sig = scen_events[0].get("sig") or ("%s %s" % (name, scen_events[0].get("id", "")))
-            ctx.violation("%s %s" % (name, scen_events[0].get("class", scen_events[0].get("id", ""))) if not scen_events[0].get("sig") else "%s %s" % (name, sig),
+            detail = sig_detail(name, scen_events, at) if sig_detail else ""
+            ctx.violation(("%s %s" % (name, scen_events[0].get("class", scen_events[0].get("id", ""))) if not scen_events[0].get("sig") else "%s %s" % (name, sig)) + ((" " + detail) if detail else ""),
                           "TLC: %s %s violated at trace line %s of scenario %s\nlast state:\n%s" % (
                               r.kind, name, at, scen_events[0].get("id"), (r.trace_states[-1] if r.trace_states else "")[:2500]),
                           {"module": module, "invariant": name, "at_event": at, "trace": scen_events})
